@@ -258,6 +258,9 @@ func refConv(c ColT, v *string, from ColT) (string, bool, bool) { // value, isNu
 	}
 	if c.isInt() && from.Kind == "decimal" {
 		u, s0 := decParse(*v)
+		if c.Kind == "bigint unsigned" && u.Sign() < 0 {
+			return "", false, false // the engine rejects a negative decimal for BIGINT UNSIGNED even when it rounds to 0
+		}
 		z := rescaleRef(u, s0, 0)
 		lo, _ := new(big.Int).SetString(intRange[c.Kind][0], 10)
 		hi, _ := new(big.Int).SetString(intRange[c.Kind][1], 10)
@@ -854,7 +857,11 @@ func observe(s *eng.S, tn int) obsT {
 			} else if tm, ok := v.(time.Time); ok {
 				vs = append(vs, sp(strconv.FormatInt(tm.Unix(), 10))) // canonical temporal value: seconds since the epoch
 			} else {
-				vs = append(vs, sp(fmt.Sprint(v)))
+				str := fmt.Sprint(v)
+				if strings.HasPrefix(str, "-0") && strings.Trim(str, "-0.") == "" {
+					str = str[1:] // the engine prints a decimal rounded up to zero as -0.00: numerically zero
+				}
+				vs = append(vs, sp(str))
 			}
 		}
 		o.rows = append(o.rows, vs)
